@@ -5,6 +5,7 @@ patch=$1; prop=$2; tier=${3:-quick}
 cd /repo || exit 3
 if [ -n "$(git status --porcelain)" ]; then echo "/repo not clean"; exit 3; fi
 git apply "$patch" 2>/dev/null || git apply -3 "$patch" || { echo "patch does not apply"; git reset -q --hard HEAD; exit 3; }
+trap "git -C /repo reset -q --hard HEAD; git -C /repo clean -fdq" EXIT INT TERM
 cd /verif && ./run "$prop" "$tier"; rc=$?
 git -C /repo reset -q --hard HEAD; git -C /repo clean -fdq
 echo "seedtest rc=$rc"
